@@ -137,7 +137,7 @@ fn section_header_with_name<'sc>(
             log::warn!("invalid sh_name offset for {:?}", name);
             continue;
         }
-        if sh_name + name.len() as u64 >= strtab_section_header.sh_size {
+        if sh_name + name.len() as u64 > strtab_section_header.sh_size {
             // This can't be a match.
             continue;
         }
